@@ -414,6 +414,28 @@ def store(cx, arr: Arr, idx, val):
             raise Unsupported("masked store of a multi-dimensional array")
         cx.set_arr(arr, fn=lambda i: V.s_ite(mfn(i), V.cast_kind(val, kind), old(i)))
         return
+    if len(idx) == 1 and isinstance(idx[0], Arr) and getattr(idx[0], "enum_mask", None) is not None and arr.ndim == 1:
+        # A[np.flatnonzero(m)] = B: position i receives B[rank of i among the true positions of m] when i < len(m)
+        # and m[i]; the index array is strictly increasing, so no position is written twice
+        ia = idx[0]
+        m = ia.enum_mask
+        mlen = m.shape[0]
+        c = V.s_cmp("<=", mlen, arr.shape[0])
+        if c is not True:
+            cx.oblige(f"index array element in bounds: positions enumerated over an array of length {_short(mlen)} used on {arr.name} of length {_short(arr.shape[0])}", c, kind="index")
+        mfn, ginv = m.fn, ia.enum_ginv
+        hit = lambda i: V.s_and(V.s_cmp("<", i, mlen), mfn(i))  # noqa: E731
+        if isinstance(val, Arr) and val.ndim == 1:
+            cl = V.s_cmp("==", val.shape[0], ia.shape[0])
+            if cl is not True:
+                cx.oblige(f"fancy-index store: value length equals the number of indices ({arr.name})", cl, kind="index")
+            vfn = val.fn
+            cx.set_arr(arr, fn=lambda i: V.s_ite(hit(i), V.cast_kind(vfn(ginv(i)), kind), old(i)))
+        elif isinstance(val, Arr):
+            raise Unsupported("fancy-index store of a multi-dimensional value")
+        else:
+            cx.set_arr(arr, fn=lambda i: V.s_ite(hit(i), V.cast_kind(val, kind), old(i)))
+        return
     if any(isinstance(i, Arr) for i in idx):
         raise Unsupported("fancy-index store")
     idx = tuple(idx) + (slice(None),) * (arr.ndim - len(idx))
@@ -528,10 +550,7 @@ def arr_attr(interp, arr: Arr, name):
         """Indices of the true elements, in increasing order (1-D boolean arrays)."""
         if arr.ndim != 1 or arr.kind != "bool":
             raise Unsupported("nonzero of a non 1-D boolean array")
-        f = make_filtered(cx, arr, arr)
-        f.u_src.generic = True  # every index term is a candidate: a true element implies count >= 1
-        g = f.g
-        return (Arr((f.count,), lambda k: g(V.to_z3(k)), "int"),)
+        return (enumeration_of(cx, arr, generic=True),)
 
     def m_sort(interp):
         raise Unsupported("in-place array sort")
@@ -707,6 +726,28 @@ def array_min(cx, arr):
     return _array_extreme_nd(cx, arr, False)
 
 
+def enumeration_of(cx, mask: Arr, generic=False) -> Arr:
+    """np.flatnonzero(mask) / mask.nonzero()[0]: the positions of the true elements in increasing order. The result
+    remembers the mask it enumerates (``enum_mask``), so that a store through it can be modelled exactly."""
+    f = make_filtered(cx, mask, mask)
+    if generic and getattr(f, "u_src", None) is not None:
+        f.u_src.generic = True  # every index term is a candidate: a true element implies count >= 1
+    g = f.g
+    r = Arr((f.count,), lambda k: g(V.to_z3(k)) if not isinstance(k, int) or not isinstance(f.count, int) else g(k), "int")
+    r.enum_mask = mask
+    r.enum_ginv = f.ginv
+    return r
+
+
+def np_flatnonzero(interp, a):
+    if not (isinstance(a, Arr) and a.ndim == 1):
+        raise Unsupported("flatnonzero of something else than a 1-D array")
+    if a.kind != "bool":
+        fn = a.fn
+        a = Arr(a.shape, lambda i: V.s_cmp("!=", fn(i), 0), "bool")
+    return enumeration_of(interp.cx, a)
+
+
 def np_any(interp, a, **kw):
     from .interp import UnivFact
 
@@ -875,7 +916,9 @@ def np_linspace(interp, a, b, num):
 
 def np_asarray(interp, a, dtype=None):
     if isinstance(a, Arr):
-        return a
+        if dtype is not None and dtype_kind(dtype, a.kind) != a.kind:
+            return np_array(interp, a, dtype)  # a conversion: numpy makes a new array
+        return a  # same dtype: numpy returns the SAME object (no copy) - aliasing is preserved
     if isinstance(a, (list, tuple)):
         return np_array(interp, a, dtype)
     return a  # scalar: kept as a scalar (0-d)
@@ -1172,6 +1215,7 @@ NP_FUNCS = {
     "numpy.arange": np_arange,
     "numpy.linspace": np_linspace,
     "numpy.asarray": np_asarray,
+    "numpy.flatnonzero": np_flatnonzero,
     "numpy.array": np_array,
     "numpy.where": np_where,
     "numpy.add": np_add,
